@@ -643,6 +643,92 @@ def gen_C11(seed, tier):
     return gen_cs("c11", seed, tier, 30, 200, calls_C11, CS_CLEAN, fext_prob=0.3)
 
 
+
+# ------------------------------------------------------------------------------------------------
+# C17: iterative solvers
+def gen_C17(seed, tier):
+    g = G.Gen(seed)
+    out, samples, sigs = [], [], set()
+    n = nmodels(tier, 24, 150)
+    # (a) inverse kinematics (no quaternion joints: the solver adds a velocity-sized step to Q)
+    for i in range(n):
+        mb = G.random_model(g, max_joints=4, allow_floating=False, exclude=("Spherical",), fixed_prob=0.3)
+        if mb.nv < 2:
+            continue
+        grav = "gravity 0 0 -981/100"
+        ents_goal = mb.q_struct()
+        reachable = (i % 3 != 2)
+        ents_init = mb.perturb_q(ents_goal, F(1, 8)) if i % 2 == 0 else mb.q_struct()
+        bodies = g.r.sample(mb.real_ids, min(len(mb.real_ids), g.r.randint(1, 2)))
+        pts = [g.vec(-1, 1) for _ in bodies]
+        # targets from the exact model at the goal configuration
+        q_goal = mb.render_q(ents_goal)
+        lines = ["case t", grav] + mb.lines + [q_goal]
+        for b, p in zip(bodies, pts):
+            lines.append("call B2B %d %s 1" % (b, G.frs(p)))
+            lines.append("call ORI %d 1" % b)
+        res = G.lean_query("\n".join(lines) + "\n")
+        keys = sorted([k for k in res if k[1] in ("B2B", "ORI")], key=lambda k: int(k[0].split(".")[1]))
+        tg, Rs = [], []
+        for j in range(len(bodies)):
+            t3 = [G.parse_fr(x) for x in res[keys[2 * j]]]
+            R9 = [G.parse_fr(x) for x in res[keys[2 * j + 1]]]
+            if not reachable:
+                t3 = [t3[0] + 40, t3[1] - 30, t3[2] + 50]
+            tg.append(t3); Rs.append(R9)
+        body = mb.state_lines(ents=ents_init)
+        # first overload
+        body.append("call IK1 %s %s %d %d %s" % ("1/1000000000000", "1/100", 80, len(bodies),
+                    " ".join("%d %s %s" % (b, G.frs(p), G.frs(t)) for b, p, t in zip(bodies, pts, tg))))
+        # constraint-set overload: point-only set, then mixed set; loose constraint_tol in one variant
+        ctol = g.r.choice(["1/1000000000000", "1/1000", "1/100000"])
+        kinds = [g.r.choice(["p", "xy", "z"]) for _ in bodies]
+        cons = " ".join("%s %d %s %s %s %s" % (k, b, G.frs(p), G.frs(t), G.frs(R), G.fr(g.r.choice([F(1), F(1, 2), F(2)])))
+                        for k, b, p, t, R in zip(kinds, bodies, pts, tg, Rs))
+        body.append("call IK2 %s %d %s %s %d %s" % ("1/1000000000", 120, "1/100000000000000", ctol, len(bodies), cons))
+        if reachable:
+            kinds2 = [g.r.choice(["f", "o", "p"]) for _ in bodies]
+            cons2 = " ".join("%s %d %s %s %s 1" % (k, b, G.frs(p), G.frs(t), G.frs(R))
+                             for k, b, p, t, R in zip(kinds2, bodies, pts, tg, Rs))
+            body.append("call IK2 %s %d %s %s %d %s" % ("1/1000000000", 200, "1/100000000000000", "1/10000000000", len(bodies), cons2))
+        cid = "c17ik%s_%d" % ("reach" if reachable else "unreach", i)
+        out.append("case " + cid); out.append(grav); out += mb.lines; out += body
+        sigs.add((tuple(mb.kinds), reachable, tuple(kinds)))
+        g.stats["ik:%s" % ("reachable" if reachable else "unreachable")] += 1
+        if len(samples) < 2:
+            samples.append({"case": cid, "joints": [list(k) for k in mb.kinds], "constraints": kinds})
+    # (b) assembly of loop-constrained systems
+    made = 0
+    tries = 0
+    while made < n and tries < 5 * n:
+        tries += 1
+        klass = ["base", "ball"][tries % 2]
+        r = G.constrained_case(g, [klass], 0, max_joints=4, need_free=1)
+        if r is None:
+            continue
+        mb, grav, st, cb = r
+        nv = mb.nv
+        wts = [g.r.choice([F(1), F(1, 2), F(2), F(3)]) for _ in range(nv)]
+        body = list(cb.lines) + ["cs_bind"]
+        # velocity-level assembly at the on-manifold configuration
+        body += mb.state_lines(ents=cb.q_ents)
+        body.append("cs_solver %d" % g.r.randint(0, 2))
+        body.append("call CAQD %s" % G.frs(wts))
+        # position-level assembly from a nearby / a random initial guess
+        init = mb.perturb_q(cb.q_ents, F(1, 16)) if made % 4 != 3 else mb.q_struct()
+        body.append(mb.render_q(init))
+        body.append("call CAQ %s %d %s" % ("1/10000000000", 60, G.frs(wts)))
+        cid = "c17asm%s_%d" % (klass, made)
+        out.append("case " + cid); out.append(grav); out += mb.lines; out += body
+        made += 1
+        sigs.add((tuple(mb.kinds), tuple(cb.kinds)))
+        for k in cb.kinds:
+            g.stats["constraint:" + k] += 1
+        if len(samples) < 3:
+            samples.append({"case": cid, "joints": [list(k) for k in mb.kinds], "constraints": cb.kinds})
+    return finish(g, out, samples, len(sigs))
+
+
 NOT_YET = {}
 
 COMMON_ASSUMPTIONS = ["double evaluation is compared with exact rational evaluation up to 1e-8*scale",
@@ -695,6 +781,11 @@ PROPS = {
     "C11": {"gen": gen_C11,
             "rule": "constraint sets of the finding-free classes on fixed- and floating-base models; two random actuation maps per case with 1..nc unactuated coordinates; isConstrainedSystemFullyActuated, the relaxed operator always, the exact operator checked when G P^T has full column rank (exact rank over Q)",
             "explanation": "certificates with the specification: G qddot = gamma, tau zero on unactuated coordinates, H qddot + N = tau + G^T lambda, actuated accelerations reproduced by the exact operator; full-actuation test against the exact rank of G P^T",
+            "assumptions": COMMON_ASSUMPTIONS},
+    "C17": {"gen": gen_C17, "level": "other",
+            "rule": "inverse kinematics (both overloads) on random models without quaternion joints: reachable targets (taken from the exact model at a goal configuration), unreachable targets, nearby / random initial guesses, point / XY / Z / orientation / full constraints, weights, three constraint_tol settings, with an iteration-cap probe of the termination test; CalcAssemblyQ from nearby / random guesses and CalcAssemblyQDot on loop-constrained models (incl. spherical joints) with random positive weights",
+            "explanation": "certificates with independently evaluated exact kinematics (cos / sin of the returned doubles by a 2^-100 fixed-point series): reported IK success implies residual = reported error norm, termination honours constraint_tol / step_tol (the run capped one step earlier had not met them), outputs finite and correctly sized; assembly success implies |phi(Q)| < tolerance and unit quaternions; assembled velocities satisfy G qdot = 0 and the weighted least-squares optimality condition. Convergence itself is not claimed.",
+            "level_text": "partial: soundness of reported success is checked by certificate on every run; the theorems cover the algebra of the returned relations, not convergence of the iterations",
             "assumptions": COMMON_ASSUMPTIONS},
     "C12": {"gen": gen_C12, "rule": RULE_MODELS + "; random contact plane (unit normal, point off the origin)", "explanation": "monitor: definitions of mass, CoM, momentum, energies, ZMP on jets of the pose specification",
             "assumptions": COMMON_ASSUMPTIONS},
